@@ -511,11 +511,11 @@ Definition fr_tc_imports (ic : list (string * string)) (types : list string) : o
                | _, _ => None
                end) types (Some []).
 
-(* skip_empty = false: the code as found — when NO annotation name was stringified (every annotation is a builtin,
-   e.g. after ShorterResults on scalar fields) but some class is imported in a method, the `if TYPE_CHECKING:` block
-   is emitted without a body and formatting the module fails (finding C15-forward-refs-empty-type-checking-block);
-   skip_empty = true: fixes/C15-forward-refs-empty-type-checking.diff (no block, no TYPE_CHECKING import). *)
-Definition fr_client (skip_empty : bool) (c : cmodule) : option cmodule :=
+(* when NO annotation name was stringified (every annotation is a builtin, e.g. after ShorterResults on scalar
+   fields) but some class is imported in a method, no `if TYPE_CHECKING:` block and no TYPE_CHECKING import are
+   emitted (/repo c4f3669; before it the block was emitted without a body and formatting the module failed —
+   finding C15-forward-refs-empty-type-checking-block, fixed) *)
+Definition fr_client (c : cmodule) : option cmodule :=
   let ic := fr_imported (cm_imports c) in
   match fr_methods ic (cm_methods c) with
   | None => None
@@ -528,10 +528,8 @@ Definition fr_client (skip_empty : bool) (c : cmodule) : option cmodule :=
           match fr_tc_imports ic types with
           | None => None
           | Some [] =>
-              if skip_empty
-              then Some {| cm_imports := fr_reduce removed (cm_imports c); cm_tc := cm_tc c; cm_class := cm_class c;
-                           cm_bases := cm_bases c; cm_methods := ms |}
-              else None
+              Some {| cm_imports := fr_reduce removed (cm_imports c); cm_tc := cm_tc c; cm_class := cm_class c;
+                      cm_bases := cm_bases c; cm_methods := ms |}
           | Some tc =>
               Some {| cm_imports := fr_reduce removed (cm_imports c)
                                     ++ [{| i_level := 0; i_module := "typing"; i_names := ["TYPE_CHECKING"] |}];
@@ -540,9 +538,9 @@ Definition fr_client (skip_empty : bool) (c : cmodule) : option cmodule :=
       end
   end.
 
-Definition fr_step (skip_empty : bool) (h : hook) (o : obj) : option obj :=
+Definition fr_step (h : hook) (o : obj) : option obj :=
   match h, o with
-  | HClientModule, OClient c => match fr_client skip_empty c with Some c' => Some (OClient c') | None => None end
+  | HClientModule, OClient c => match fr_client c with Some c' => Some (OClient c') | None => None end
   | _, _ => Some o
   end.
 
@@ -557,7 +555,7 @@ Definition nr_step (h : hook) (o : obj) : obj :=
 Inductive plugin :=
 | PShorter (st : sh_state)
 | PExtract (st : ex_state)
-| PForward (skip_empty : bool)
+| PForward
 | PNoReimports
 | PIdentity.            (* a plugin class overriding no hook: Plugin's defaults return their argument *)
 
@@ -565,7 +563,7 @@ Definition step (p : plugin) (h : hook) (o : obj) : option (plugin * obj) :=
   match p with
   | PShorter st => match sh_step st h o with Some (st', o') => Some (PShorter st', o') | None => None end
   | PExtract st => match ex_step st h o with Some (st', o') => Some (PExtract st', o') | None => None end
-  | PForward se => match fr_step se h o with Some o' => Some (p, o') | None => None end
+  | PForward => match fr_step h o with Some o' => Some (p, o') | None => None end
   | PNoReimports => Some (p, nr_step h o)
   | PIdentity => Some (p, o)
   end.
@@ -910,8 +908,7 @@ Definition dPlugin (e : sexp) : option plugin :=
       Some (PShorter {| sh_fragments_module := fm; sh_classes := []; sh_imported := []; sh_extended := [] |})
   | L [A "extract"; A om] =>
       Some (PExtract {| ex_module := om; ex_gqls := []; ex_vars := []; ex_written := false |})
-  | A "forward" => Some (PForward false)
-  | A "forward-skip-empty" => Some (PForward true)
+  | A "forward" => Some PForward
   | A "noreimports" => Some PNoReimports
   | A "identity" => Some PIdentity
   | _ => None
